@@ -62,6 +62,8 @@ func execDelete(ctx context.Context, env *Env, st *State, op Op, rep *kit.Report
 				ApplyDelete(tm, op, all)
 				if dataDomainOutsideIndex(tm, tm.Chans[k]) {
 					sig = "read-error:data-domain-start-outside-index-coverage"
+				} else if IndexLostCoverage(ctx, env.DB, tm, tm.Chans[k]) {
+					sig = "read-error:data-domain-end-outside-index-coverage"
 				}
 			}
 			return kit.Fail(sig, "%s: read after failed delete: %v", where, err)
